@@ -58,6 +58,37 @@ static void do_read(Toks &t, std::ostream &out) {
     catch (const std::system_error &) { thrown = true; }
     catch (...) { fclose(fp); throw; }
     fclose(fp);
+    // the same file read into a graph that is NOT empty (three vertices, two weighted edges): the described graph must be ADDED next to what is
+    // there -- the same outcome, shifted by three vertices, the caller's vertices and edges untouched
+    {
+        fp = fopen(tmp_path.c_str(), "r");
+        if (!fp) throw std::runtime_error("cannot reopen " + tmp_path);
+        graph_t h(3);
+        auto wh = boost::get(boost::edge_weight, h);
+        wh[boost::add_edge(0, 1, h).first] = 7.5; wh[boost::add_edge(1, 2, h).first] = 0.25;
+        bool thrown2 = false;
+        try { parmcb::read_dimacs_from_file(fp, h); }
+        catch (const std::system_error &) { thrown2 = true; }
+        catch (...) { fclose(fp); throw; }
+        fclose(fp);
+        const std::string what = "reading the same file into a graph that already has 3 vertices and 2 edges: ";
+        if (thrown2 != thrown) throw std::runtime_error(what + (thrown2 ? "error, but none when read into an empty graph" : "no error, but one when read into an empty graph"));
+        if (!thrown) {
+            if (boost::num_vertices(h) != boost::num_vertices(g) + 3 || boost::num_edges(h) != boost::num_edges(g) + 2)
+                throw std::runtime_error(what + std::to_string(boost::num_vertices(h)) + " vertices and " + std::to_string(boost::num_edges(h)) + " edges afterwards, expected "
+                                         + std::to_string(boost::num_vertices(g) + 3) + " and " + std::to_string(boost::num_edges(g) + 2));
+            auto wg = boost::get(boost::edge_weight, g);
+            auto eh = boost::edges(h).first; auto eg = boost::edges(g).first;
+            for (size_t i = 0; i < boost::num_edges(h); i++, ++eh) {
+                size_t su, tu; double wu;
+                if (i == 0) { su = 0; tu = 1; wu = 7.5; } else if (i == 1) { su = 1; tu = 2; wu = 0.25; }
+                else { su = boost::source(*eg, g) + 3; tu = boost::target(*eg, g) + 3; wu = wg[*eg]; ++eg; }
+                if (boost::source(*eh, h) != su || boost::target(*eh, h) != tu || !(wh[*eh] == wu))
+                    throw std::runtime_error(what + "edge #" + std::to_string(i) + " is (" + std::to_string(boost::source(*eh, h)) + "," + std::to_string(boost::target(*eh, h)) + "," + std::to_string(wh[*eh])
+                                             + "), expected (" + std::to_string(su) + "," + std::to_string(tu) + "," + std::to_string(wu) + ")");
+            }
+        }
+    }
     if (thrown) out << "THROW"; else dump_graph(g, out);
 }
 
